@@ -122,6 +122,28 @@ class C09(ProgramProperty):
             steps += [q(20, "expand_pair", p, "1"), q(0, "expand_pair", p, "1")]
         for u in gen.uri_probes(rng, parent, 4):
             steps += [q(20, "compress", u), q(0, "compress", u), q(0, "parse_uri", u)]
+        # history: the sub-converter (and the one-element chain) live on and acquire synonyms by merge -- names that
+        # belong to parent records outside the subset, or new ones; the parent, a second restriction of it and a
+        # second chain of it must be what they were
+        inside = [r_ for r_ in parent if set(subset) & set(gen.all_prefixes([r_]))]
+        outside = [r_ for r_ in parent if r_ not in inside]
+        if inside and rng.random() < 0.5:
+            t = rng.choice(inside)
+            if outside and rng.random() < 0.7:
+                o = rng.choice(outside)
+                ext = {"ps": [o["p"]], "us": []} if rng.random() < 0.5 else {"ps": [], "us": [o["u"]]}
+            else:
+                ext = {"ps": [cps("acq" + gen.word(rng, 1, 1, syms=["a", "b", "1"]))], "us": [cps("http://acq.example/")]}
+            steps.append({"op": "add_prefix", "c": 20, "p": t["p"], "u": t["u"], "merge": True, **ext})
+            steps.append({"op": "add_prefix", "c": 12, "p": t["p"], "u": t["u"], "merge": True,
+                          "ps": [cps("acq2")], "us": []})
+            steps += [q(20, "records"), q(0, "records"), q(0, "get_prefixes", s=True), q(0, "get_uri_prefixes", s=True),
+                      {"op": "sub", "dst": 21, "src": 0, "prefixes": [cps(x) for x in subset]}, q(21, "records"),
+                      {"op": "chain", "dst": 22, "srcs": [0], "cs": True}, q(22, "records"),
+                      {"op": "fresh", "dst": 23, "src": 0, "extra": []}, q(23, "records")]
+            for p in pp[:4]:
+                steps += [q(21, "expand_pair", p, "1"), q(22, "expand_pair", p, "1")]
+            kinds = kinds + ["history:merge-into-derived"]
         return {"steps": steps, "n": len(convs), "probes_p": probes_p, "subset": subset, "subkind": kind,
                 "tags": kinds + [f"inputs={len(convs)}", f"subset={kind}"]}
 
@@ -138,9 +160,31 @@ class C09(ProgramProperty):
         return 4
 
     def laws(self, case, impl):
+        # the history tail (merges into derived converters) is judged separately: the laws below speak about the
+        # converters as they were derived
+        cut = next((i for i, st in enumerate(case["steps"]) if st["op"] == "add_prefix"), len(case["steps"]))
+        full_case, full_impl = case, impl
+        case = dict(case, steps=case["steps"][:cut])
+        impl = impl[:cut]
         g = Getter(case, impl)
         fails = []
         n = case["n"]
+        if cut < len(full_case["steps"]):
+            t = Getter(dict(full_case, steps=full_case["steps"][cut:]), full_impl[cut:])
+            key = lambda rs: sorted((r["p"], r["u"], tuple(sorted(r["ps"])), tuple(sorted(r["us"])), r["pat"] or None) for r in rs)
+            islist = lambda *xs: all(have(x) and isinstance(x, list) for x in xs)
+            b0, a0 = g("records", c=0), t("records", c=0)
+            if islist(b0, a0) and key(b0) != key(a0):
+                fails.append("merging into a derived converter (get_subconverter / chain([c])) changed the records of its input")
+            for what, before, after in (("get_subconverter", g("records", c=20), t("records", c=21)),
+                                        ("chain([c])", g("records", c=12), t("records", c=22)),
+                                        ("Converter(c.records)", b0, t("records", c=23))):
+                if islist(before, after) and key(before) != key(after):
+                    fails.append(f"{what} of the same input differs after a sibling derived from it was extended by merge")
+            for gp, name in ((t("get_prefixes", s=True, c=0), "get_prefixes"), (t("get_uri_prefixes", s=True, c=0), "get_uri_prefixes")):
+                bp = g(name, s=True, c=0)
+                if have(gp, bp) and isinstance(gp, list) and isinstance(bp, list) and set(gp) != set(bp):
+                    fails.append(f"{name}(include_synonyms=True) of the input changed after a derived converter was extended by merge")
         for st, v in zip(case["steps"], impl):
             if st["op"] == "chain" and v is not None and not (isinstance(v, dict) and v.get("e") == "valueError"):
                 fails.append(f"chain raised {v!r}, expected ValueError")
